@@ -718,6 +718,18 @@ theorem step_wf {s : Seq} (h : WF s) (op : Op) : WF (step s op).1 ∧ Same s (st
     intro q hq
     obtain ⟨r, h1, _, h4, h5⟩ := getNodes_spec h
     rw [h1] at hq; cases hq; exact ⟨h4, h5⟩
+  | appendOther => exact ⟨h, Same.refl s⟩
+  | extendOther pre =>
+    simp only [step, extendOther]
+    have h1 := extend_wf h pre
+    cases hs : extend s pre with
+    | mk s1 e =>
+      rw [hs] at h1
+      cases e <;> exact h1
+  | insertOther => exact ⟨h, Same.refl s⟩
+  | setOther pre =>
+    simp only [step, setOther]
+    cases checkAll (setitemCheck s) pre <;> exact ⟨h, Same.refl s⟩
 
 theorem run_wf {s : Seq} (h : WF s) (ops : List Op) : WF (run s ops) ∧ Same s (run s ops) := by
   induction ops generalizing s with
@@ -741,12 +753,31 @@ inductive Reachable : Seq → Prop
   | ctor {items : List Item} {r sr : Bool} {s : Seq} : construct items r sr = .ok s → Reachable s
   | fromSeq {items : List Item} {r sr : Bool} {s : Seq} : fromSequence items r sr = .ok s → Reachable s
   | step {s : Seq} (op : Op) : Reachable s → Reachable (step s op).1
+  | copied {s : Seq} (f : Nat → Nat) : Reachable s → Reachable (relabel f s)      -- `deepcopy` / pickling
+
+theorem byName_relabel (f : Nat → Nat) (n : Nat) (l : List Item) :
+    byName n (l.map (relabelItem f)) = (byName n l).map (relabelItem f) := by
+  unfold byName
+  rw [List.filter_map]
+  rfl
+
+/-- a deep copy is as consistent as its original -/
+theorem relabel_wf {s : Seq} (h : WF s) (f : Nat → Nat) : WF (relabel f s) ∧ Same s (relabel f s) := by
+  refine ⟨⟨?_, ?_, h.flags⟩, rfl, rfl⟩
+  · intro n
+    show ((s.lut n).map (relabelItem f)).Perm (byName n (s.items.map (relabelItem f)))
+    rw [byName_relabel]
+    exact (h.inv n).map _
+  · intro it hit
+    obtain ⟨x, hx, rfl⟩ := List.mem_map.mp hit
+    exact h.rule x hx
 
 theorem Reachable.wf {s : Seq} (h : Reachable s) : WF s := by
   induction h with
   | ctor hc => exact (construct_ok hc).2.2.2.1
   | fromSeq hc => exact (construct_ok (fromSequence_ok hc)).2.2.2.1
   | step op _ ih => exact (step_wf ih op).1
+  | copied f _ ih => exact (relabel_wf ih f).1
 
 theorem Reachable.run {s : Seq} (h : Reachable s) (ops : List Op) : Reachable (run s ops) := by
   induction ops generalizing s with
